@@ -31,6 +31,10 @@ func convertMap(ctx context.Context, rv reflect.Value, rt reflect.Type) (reflect
 		if err != nil {
 			return rv, err
 		}
+		if newMap.MapIndex(newKey).IsValid() {
+			// two keys become the same key: which value survives would depend on the iteration order
+			return rv, errInvalidTypeConversion
+		}
 		newMap.SetMapIndex(newKey, value)
 	}
 
